@@ -72,7 +72,7 @@ func newRig(member string, order uint64) (*rig, error) {
 		if member == "chain" && (n == "pacing" || n == "cc-leaky-bucket" || n == "jitterbuffer") {
 			continue // the chain keeps delivery synchronous; these three are exercised on their own
 		}
-		if member == "chain" && order != 0 && n == "cc-noop-pacer" {
+		if member == "chain" && (n == "cc-user-pacer" || order != 0 && n == "cc-noop-pacer") { // (one cc member per chain)
 			// inside an FEC or RTX member the estimator's pacer answers "unknown ssrc" for repair packets and the error is joined into the
 			// application's write (DESIGN 8.2, observation a): the cc member keeps its catalog position (order 0) and its own cases
 			continue
